@@ -25,13 +25,17 @@ CFG = dict(
          "MaybeUninit buffers pre-filled with a sentinel; Vec1Mut::get_mut (len 0..5 x index 0..len+1) and apply_mut_with "
          "(len 0..5 x other 0..5, recording callback) on Vec / wrapped VecDeque / Array1 / ArrayViewMut1; "
          "Vec1::sort_unstable_by on EVERY sequence over a 3-letter alphabet up to length 5, both orders, on Vec, "
-         "Array1, contiguous and wrapped VecDeque (copy-out / write-back path).  thorough widens every bound.  Compared exactly "
+         "Array1, contiguous and wrapped VecDeque (copy-out / write-back path); sources with a MISREPORTED size hint (upper bound below / above "
+         "the actual length, lower bound above it) of length 0..4 through collect_vec1, collect_from_iter, collect_vec1_opt and "
+         "try_collect_vec1 (an error at every position) on every container, and lying TrustIters through the trusted collectors "
+         "of the default backend — the model is given the wrong hint.  thorough widens every bound.  Compared exactly "
          "with the model (binary64 model evaluated with PrimFloat; non-representable steps through a "
          "comparator that tolerates 1e-9 and, only when (b-a)/step is within 1e-9 of an integer, one "
          "element more or less — DESIGN 5.1); tags nt=0 mark trivial cases (empty result / empty buffer)",
     theorem_hint="Props/C19.v: C19_range_int, C19_range_unsigned, C19_range_exact_rational, C19_linspace_*, "
-                 "C19_collect_*, C19_try_collect_*, C19_write_trust_iter*, C19_apply_mut_with, C19_sort_unstable_by",
-    level_text="Proof: 29 theorems (Props/C19.v, all axiom-free) about one polymorphic Gallina model of "
+                 "C19_collect_*, C19_try_collect_*, C19_write_trust_iter*, C19_apply_mut_with, C19_sort_unstable_by, "
+                 "C19_*_any_announcement, C19_*_any_number_type, C19_linspace_binary64, C19_range_binary64_shape",
+    level_text="Proof: 45 theorems (Props/C19.v, all axiom-free) about one polymorphic Gallina model of "
                "linspace.rs/create.rs (as repaired) and of the collectors of own.rs/trusted.rs/uninit.rs: "
                "range = exactly the terms of the arithmetic progression strictly before the end (count and "
                "elements tied by an iff) over Z signed, Z unsigned and exact rationals; empty span = []; linspace "
@@ -41,6 +45,17 @@ CFG = dict(
                "optional -> null-encoded; try-collectors = first error else all; write_trust_iter = all slots "
                "once (equal length / singleton broadcast), Ok on an empty buffer, else Err with no slot written; apply_mut_with / get_mut positional laws; sort_unstable_by leaves a "
                "sorted permutation. "
+               "AUDIT EXTENSION (16 further theorems, Proofs/Audit19.v; matrix in notes/C19.md): plain collection ignores the "
+               "size hint (item-dropping and under-reporting sources); empty = []; optional collection in closed form; trusted "
+               "/ explicit-length / fallible-trusted collection against ANY announcement (default body: identity; raw body: "
+               "identity iff exact, exposed tail when too long, write past the allocation when too short; first error for every "
+               "announcement not shorter than the Ok prefix); the source is pulled up to and including the first error; "
+               "write_trust_iter against any announcement and any previous buffer content (Ok prefix of surplus items, unwrap "
+               "panic after a written prefix when items are missing, broadcast, Err only with an untouched buffer); linspace / "
+               "range for EVERY Number dictionary: exactly n (count) elements start + step * k, the empty-span rule, the panic "
+               "cases; at the binary64 dictionary the run executes: linspace never panics and has exactly n elements, range "
+               "is a capacity-overflow panic or count elements. Still open at binary64: that the count equals the number of "
+               "progression terms before end, and end-point accuracy of linspace (proved over Q; compared by the run). "
                "The model is tied to the code by an exhaustive small-scope differential run through the public API.",
     level_note="Trusted: Coq kernel; the hand-written model; std's FromIterator / Array1::from_iter (modelled as "
                "the identity) and std's short-circuiting collect into Result; IEEE rounding (the float theorems "
